@@ -153,7 +153,8 @@ class Function:
                         aws.append(cls.create_task(cmd[1]))
                     elif cmd[0] == "sync":
                         if len(aws) > 0:
-                            await asyncio.gather(*aws)
+                            # a run that ended cancelled (it cancelled itself, say) must not end the waiter
+                            await asyncio.gather(*aws, return_exceptions=True)
                             aws = []
                         await cmd[1].put(0)
                     else:
